@@ -201,6 +201,8 @@ type Found struct {
 	Scenario string       `json:"scenario"`
 	Config   int          `json:"config"`
 	Devs     []vsched.Dev `json:"devs"`
+	History  []string     `json:"history,omitempty"`
+	Input    string       `json:"input,omitempty"`
 	Trace    []string     `json:"trace,omitempty"`
 	Count    int          `json:"count"`
 }
